@@ -4,8 +4,8 @@ import LenaModel.Model.C13
 /-! Model driver for C13.  Keys are numbered by the case's sorted key alphabet `names`; contexts travel as
 JSON objects (a leaf is an int or a string; `null` = the unmodelled rendering of a dictionary).
 Request:
-  {"op":"build","names":[..],"out":[output,filename,prefix,suffix,dirname,fileext slots],"tree":T,"flow":[ctx,..]|null,
-   "src":[ctx,..]}
+  {"op":"build","names":[..],"out":[output,filename,prefix,suffix,dirname,fileext slots],"tree":T,"flow":[ctx|null (bare data),..]|null,
+   "src":[ctx,..],"redeliver":[ctx,..] (optional)}
   T ::= {"k":"seq","kind":"Sequence"|"Source","c":[T..]} | {"k":"split","c":[T..]}
       | {"k":"set","key":[slots],"val":leaf|null,"tpl":TPL|null} | {"k":"store"|"ucfs"|"data"|"src"}
       | {"k":"mut","key":[slots],"val":leaf}
@@ -19,7 +19,9 @@ Reply: {"nodes":[per node in document order: {"k":..,"get":ctx|{"e":key}} (set, 
   "closed": the same records for the closed form `final t [{}]`, "closed_at": per node the record of
   `final s (histOfCone (cone t p) [{}])` (both must equal "nodes" on every case — `build_eq_final`, `final_at`),
   "spec":[per node: the same record predicted by `ctxAt`/`leafFinal`/`fold`, or null where the prefix of the node
-  has an unresolved key], "cones":[per node: [["seq", number of earlier children] | ["split"], ..]],
+  has an unresolved key], "toks":[per node: the token `tokOf t p` of the dictionary object handed to it,
+  [[path], tag]], "redelivered": null | {"nodes": records after `setCtx` with each context of "redeliver" in turn,
+  "raised": per context the key of the LenaKeyError that `_set_context` raised, or null}, "cones":[per node: [["seq", number of earlier children] | ["split"], ..]],
   "out":{"r":[[data,ctx],..] (`run` on the built state), "ref": `runRef`, "plain": `runPlain`,
   "no_consumer": bool, "linear": `St.linear`, "itemwise": the concatenation of `run` on the one-value flows}
   |{"unmodelled":true}|null} -/
@@ -186,11 +188,18 @@ def coneJson (t : Tree) (p : List Nat) : Json :=
       | .split => Json.arr #[Json.str "split"]) k
 
 def flowJson (names : Array String) (r : List Item) : Json :=
-  ofList (fun (it : Item) => Json.arr #[ofInt it.1, ctxJson names it.2]) r
+  ofList (fun (it : Item) => Json.arr #[ofInt it.1, match it.2 with
+    | some c => ctxJson names c
+    | none => Json.null]) r
+
+def tokJson (t : Tree) (p : List Nat) : Json :=
+  match tokOf t p with
+  | none => Json.null
+  | some (q, tag) => Json.arr #[ofList ofNat q, ofNat tag]
 
 def toFlow (names : Array String) (j : Json) : Option (List Item) := do
   let a ← arr? j
-  let cs ← a.toList.mapM (toCtx names)
+  let cs ← a.toList.mapM fun (x : Json) => if x.isNull then some none else (toCtx names x).map some
   pure (cs.zipIdx.map fun (c, i) => ((i : Int), c))
 
 def handle (j : Json) : Json :=
@@ -222,6 +231,17 @@ def handle (j : Json) : Json :=
           | _, _ => err "bad flow"
       let paths := allPaths t
       let nodes := observe n names ok st
+      -- `top._set_context(c)` for the contexts of "redeliver", one after the other, on the constructed program
+      let redelivered : Json :=
+        match (arr? (getD j "redeliver")).bind (fun a => a.toList.mapM (toCtx names)) with
+        | none => Json.null
+        | some cs =>
+          let (stR, raised) := cs.foldl (fun (acc : St × List Json) c =>
+            let r := setCtx n acc.1 c
+            (r.1, acc.2 ++ [match r.2 with
+              | some e => Json.str (names.getD e ("#" ++ toString e))
+              | none => Json.null])) (st, [])
+          Json.mkObj [("nodes", Json.arr (observe n names ok stR).toArray), ("raised", Json.arr raised.toArray)]
       -- replies are compact: `null` / "=" stand for "equal to the record in nodes"
       let closed := observe n names ok (final n t [Val.empty n])
       let closedAtL := paths.map (closedAt n names ok t)
@@ -232,6 +252,8 @@ def handle (j : Json) : Json :=
                   ("closed", if closed == nodes then Json.null else Json.arr closed.toArray),
                   ("closed_at", if closedAtL == nodes then Json.null else Json.arr closedAtL.toArray),
                   ("cones", ofList (coneJson t) paths),
+                  ("toks", ofList (tokJson t) paths),
+                  ("redelivered", redelivered),
                   ("fold", resJson names (fold n t (Val.empty n))), ("out", out)]
     | _, _, _ => err "bad build args"
   | _ => err "unknown op"
